@@ -120,6 +120,19 @@ def _root_of(ctx, ci, e: ast.expr, depth) -> Tuple[Optional[str], List[str]]:
         return r, maps + ["sqrt"]
     if isinstance(e, ast.Attribute) and isinstance(e.value, ast.Name) and e.value.id == "self":
         return public_root(ctx, ci, e.attr, depth + 1)
+    if isinstance(e, ast.Call) and isinstance(e.func, ast.Attribute) and isinstance(e.func.value, ast.Name) and e.func.value.id in ("self", "cls") and e.func.attr.startswith("_") and depth <= 4:
+        # a private helper method applied to the value (`self._without_subtotal_differences(x)`): its summary with the
+        # arguments bound is analysed in its place
+        hm = ctx.repo.lookup(ci, e.func.attr)
+        if hm is not None and hm.kind in ("method", "staticmethod", "classmethod") and not e.keywords:
+            params = [p_ for p_ in hm.params if p_ not in ("self", "cls")]
+            if len(params) >= len(e.args):
+                try:
+                    body = SUMMARIZER.summarize(hm.node, dict(zip(params, e.args)))
+                except Exception:
+                    body = None
+                if body is not None:
+                    return _root_of(ctx, ci, body, depth + 1)
     if isinstance(e, ast.BinOp) and isinstance(e.op, ast.Mult):
         parts = _flatten_mult(e)
         roots = []
